@@ -340,6 +340,13 @@ func (vc *VC) evalMods(sp *spec.FuncSpec, env *Env, phase int) ([]modLoc, error)
 				}
 				acc := map[string]bool{}
 				tt.kinds(ty, acc)
+				if mt, ok := ty.Underlying().(*types.Map); ok {
+					// kindof(m) for a map: the contents of every map of that type (e.g. the inner maps
+					// of a map of maps, whose objects a contract cannot enumerate)
+					for _, k := range vc.mapKeys(mt) {
+						acc[k] = true
+					}
+				}
 				for k := range acc {
 					out = append(out, modLoc{cond: curCond, key: k, all: true, obj: IntLit(0), lo: IntLit(0), hi: IntLit(0)})
 				}
